@@ -15,6 +15,7 @@ C18.c  key agreement: every key the env's _reset reads from the incoming TensorD
 from __future__ import annotations
 
 import ast
+from fractions import Fraction
 import re
 
 from .. import nf, vg
@@ -257,11 +258,13 @@ def env_generator_attrs(ctx: Ctx):
     mtvrp_integer_demands(ctx)
     cvrptw_windows(ctx)
     fjsp_eligibility(ctx)
+    jssp_processing_times(ctx)
     shape_counts(ctx)
     job_op_ranges(ctx)
     mtvrp_demand_classes(ctx)
     mtvrp_preset_order(ctx)
     clustered_samplers(ctx)
+    gaussian_mixture_centred_by_its_bounding_box(ctx)
     _base = ctx.repo.get_class(UT, "Generator")
     sampler_range_once(ctx, [c for c in ctx.repo.subclasses(_base) if c.module.name.startswith("rl4co.envs")])
     paired_count_even(ctx)
@@ -357,6 +360,85 @@ def mtvrp_scaling_under_one_condition(ctx: Ctx):
     ok = len({tuple(v) for v in vals.values()}) == 1 and all(len(v) == 1 and v[0] for v in vals.values())
     ctx.ob("C18.u", "MTVRPGenerator._generate:rescaling-under-one-condition", ok, fi.loc,
            f"conditions of the in-place divisions: { {k: [' and '.join(c) or 'unconditional' for c in v] for k, v in vals.items()} }", construct="MTVRPGenerator._generate:rescaling-conditions")
+
+
+def gaussian_mixture_centred_by_its_bounding_box(ctx: Ctx):
+    """C18.x Gaussian_Mixture._batch_normalize_and_center: after the instance has been scaled so that its widest axis spans
+    exactly [0, 1] (c = (x - min) / widest range, every coordinate in [0, 1]), it is centred by its BOUNDING BOX: the value
+    returned is  c + (1 - max_over_nodes(c)) / 2  (normal form  c + 1/2 - 1/2 * max(c, dim=1)), which keeps every coordinate in
+    [max_c / 2 ... ] within [0, 1].  Centring the MEAN at 1/2 instead pushes the points of a skewed instance outside the unit
+    square (the widest axis already uses the whole unit)."""
+    cls = ctx.repo.get_class("rl4co/envs/common/distribution_utils.py", "Gaussian_Mixture")
+    fi = cls.methods.get("_batch_normalize_and_center")
+    if fi is None:
+        raise AnalysisError("Gaussian_Mixture._batch_normalize_and_center not found")
+    ctx.fn(fi)
+    it = vg.Interp(ctx.repo, cls, inline_policy=lambda f, a: False)
+    fr = it.run_function(fi)
+    r = nf.strip(fr.ret) if isinstance(fr.ret, vg.S) else None
+    ok, why = False, "returned value is not `c + shift`"
+    if r is not None and r.op == "+" and len(r.args) == 2:
+        for c_, sh in (r.args, r.args[::-1]):
+            if not (isinstance(c_, vg.S) and isinstance(sh, vg.S)):
+                continue
+            ps = nf.poly(sh)
+            ats = ps.atoms()
+            if len(ats) != 1:
+                continue
+            m = nf.strip(ats[0])
+            inner = m
+            while inner.op in ("attr", "sub") and isinstance(inner.args[0], vg.S):
+                inner = nf.strip(inner.args[0])
+            is_max = inner.op == "meth" and inner.args[1] in ("max", "amax") and nf.axis_is(inner, 1) and nf.norm(inner.args[0]).id == nf.norm(c_).id
+            half = ps == nf.Poly.const(Fraction(1, 2)) - nf.Poly.const(Fraction(1, 2)) * nf.Poly.atom(ats[0])
+            if is_max:
+                ok = bool(half)
+                why = f"shift = {ps.show(3)[:80]}: half the slack of the bounding box along the node axis -- {ok}"
+    ctx.ob("C18.x", "Gaussian_Mixture._batch_normalize_and_center:centred-by-the-bounding-box", ok, fi.loc, why, construct="Gaussian_Mixture._batch_normalize_and_center:centring")
+
+
+def jssp_processing_times(ctx: Ctx):
+    """C18.w JSSP durations lie in the documented range [min_processing_time, max_processing_time]: the draw that feeds
+    `proc_times` is `torch.randint(min_processing_time, max_processing_time + 1, ...)` (bounds compared in normal form), or --
+    for any other construction -- both bounds are provable by bound lineage (sa/bounds.py).  `floor(rand * max) + min` agrees
+    with the range only for min = 1 and reaches max + min - 1 otherwise."""
+    from .. import bounds
+    g = ctx.repo.get_class("rl4co/envs/scheduling/jssp/generator.py", "JSSPGenerator")
+    fi = g.methods.get("_simulate_processing_times")
+    if fi is None:
+        raise AnalysisError("JSSPGenerator._simulate_processing_times not found")
+    ctx.fn(fi)
+    it = vg.Interp(ctx.repo, g, inline_policy=lambda f, a: False)
+    fr = it.run_function(fi)
+    ret = fr.ret if isinstance(fr.ret, vg.S) else None
+    if ret is None:
+        raise AnalysisError("JSSPGenerator._simulate_processing_times: return not resolved")
+    MIN, MAX = vg.mk("selfattr", "min_processing_time"), vg.mk("selfattr", "max_processing_time")
+    # the duration factor of `durations * eligibility indicator`: the factor that does not come from the one-hot machine assignment
+    r0 = nf.strip(ret)
+    while r0.op == "meth" and r0.args[1] in ("to", "float", "long", "int", "contiguous", "clone"):
+        r0 = nf.strip(r0.args[0])
+    factors = list(r0.args) if r0.op == "*" else [r0]
+    dur = [f_ for f_ in factors if isinstance(f_, vg.S) and not any((nf._fn(x) or "").endswith("one_hot") for x in vg.walk(f_))]
+    if len(dur) != 1:
+        raise AnalysisError(f"JSSPGenerator._simulate_processing_times: duration factor not identified ({len(dur)} candidates)")
+    ret = dur[0]
+    draws = [n for n in vg.walk(ret) if nf._fn(n) == "torch.randint"]
+    if draws:
+        lo, hi = bounds.Prover._randint(draws[0])
+        ok = lo is not None and hi is not None and nf.poly(lo) == nf.poly(MIN) and (nf.poly(hi) - nf.Poly.const(1) == nf.poly(MAX) or nf.poly(hi) == nf.poly(MAX)) and len(draws) == 1
+        why = f"durations = randint({vg.show(lo, 2) if lo is not None else '?'}, {vg.show(hi, 2) if hi is not None else '?'}): inside [min, max] -- {ok}"
+    else:
+        def slack(u, a):
+            if a is None and isinstance(u, vg.S) and u.op == "selfattr" and u.args[0] in ("min_processing_time", "max_processing_time"):
+                return "processing-time bounds are non-negative"
+            if isinstance(a, vg.S) and u is MAX and a is MIN:
+                return "min_processing_time <= max_processing_time (configuration)"
+            return None
+        P1, P2 = bounds.Prover(slack), bounds.Prover(slack)
+        ok = P2.le(ret, MAX)
+        why = "no randint draw; upper bound max_processing_time by bound lineage: " + ("proved" if ok else "NOT provable (" + "; ".join(P2.trace[-1:]) + ")")
+    ctx.ob("C18.w", "JSSPGenerator:processing-times-in-range", bool(ok), fi.loc, why, construct="JSSPGenerator._simulate_processing_times:range")
 
 
 def job_span_forms(end, start):
